@@ -390,12 +390,19 @@ func init() {
 			if r.Thorough {
 				maxM, bound = 3, 3
 			}
+			deep := 0
+			if r.Thorough {
+				deep = 4 // single-message batches one level deeper
+			}
 			for m := 1; m <= maxM; m++ {
 				for rot := 0; rot < 4; rot++ {
 					for _, nn := range []bool{false, true} {
 						b := bound
 						if m == 3 && nn {
 							continue
+						}
+						if m == 1 && deep > b {
+							b = deep
 						}
 						jobs = append(jobs, job{c03Cfg{M: m, Rot: rot, NoOp: nn}, b})
 					}
